@@ -282,6 +282,10 @@ def _check_unpaused_after_play(a, v):
     for i, r in enumerate(calls):
         if r['what'] != 'play' or r['raised']:
             continue
+        if r['who'].startswith(('hook:on_pausing', 'hook:on_paused:pre')):
+            # an override that calls play() and then goes on to carry out the pause it is part of (super().on_paused()
+            # is what pauses): the play came before the pause took effect, it makes no claim about what follows
+            continue
         start = r.get('sample')
         if start is None:
             continue  # self/listener calls carry no sample index
